@@ -278,6 +278,42 @@ func c05HandlerRefs(c *Ctx) {
 
 // nextServeCalls: calls of the captured `next` handler in a middleware closure.
 func nextServeCalls(cl *ssa.Function) []*ssa.Call {
+	isNext := func(v ssa.Value) bool {
+		v = strip(v)
+		if a, ok := loadAddr(v); ok {
+			v = a
+		}
+		fv, ok := v.(*ssa.FreeVar)
+		return ok && fv.Name() == "next"
+	}
+	// servesParam: callee calls ServeHTTP on (or simply calls) its parameter idx
+	servesParam := func(callee *ssa.Function, idx int) bool {
+		if callee == nil || !IsFirstParty(callee) || callee.Blocks == nil || idx >= len(callee.Params) {
+			return false
+		}
+		p := callee.Params[idx]
+		for _, ci := range callsIn(callee) {
+			call, ok := ci.(*ssa.Call)
+			if !ok {
+				continue
+			}
+			var recv ssa.Value
+			switch {
+			case call.Call.IsInvoke() && call.Call.Method.Name() == "ServeHTTP":
+				recv = call.Call.Value
+			case calleeName(call) == "(net/http.HandlerFunc).ServeHTTP":
+				recv = call.Call.Args[0]
+			case call.Call.StaticCallee() == nil && !call.Call.IsInvoke():
+				recv = call.Call.Value
+			default:
+				continue
+			}
+			if strip(recv) == ssa.Value(p) {
+				return true
+			}
+		}
+		return false
+	}
 	var out []*ssa.Call
 	for _, ci := range callsIn(cl) {
 		call, ok := ci.(*ssa.Call)
@@ -293,13 +329,18 @@ func nextServeCalls(cl *ssa.Function) []*ssa.Call {
 		case call.Call.StaticCallee() == nil && !call.Call.IsInvoke():
 			recv = call.Call.Value
 		default:
+			// the wrapped handler handed to a first-party helper that serves it
+			if callee := call.Call.StaticCallee(); callee != nil {
+				for i, a := range call.Call.Args {
+					if isNext(a) && servesParam(callee, i) {
+						out = append(out, call)
+						break
+					}
+				}
+			}
 			continue
 		}
-		v := strip(recv)
-		if a, ok := loadAddr(v); ok {
-			v = a
-		}
-		if fv, ok := v.(*ssa.FreeVar); ok && fv.Name() == "next" {
+		if isNext(recv) {
 			out = append(out, call)
 		}
 	}
